@@ -22,17 +22,22 @@ def prices(kind):
     rets = {
         "t1": {"a": [0.25, -0.125, 0.5, -0.25, 0.125, 0.0, 0.25, -0.125, 0.0625, -0.25, 0.5, 0.125, -0.125], "b": [0.0625, 0.0625, -0.0625, 0.125, -0.125, 0.0625, 0.0, 0.03125, -0.0625, 0.0625, 0.125, -0.03125, 0.0625], "c": [-0.5, 0.5, 0.25, -0.25, 0.5, -0.125, -0.25, 0.25, 0.125, -0.5, 0.25, 0.5, -0.25]},
         "t2": {"a": [0.1, -0.05, 0.02, 0.03, -0.07, 0.04, 0.01, -0.02, 0.06, -0.03, 0.02, 0.05, -0.04], "b": [-0.02, 0.03, 0.01, -0.04, 0.05, -0.01, 0.02, 0.03, -0.05, 0.01, -0.02, 0.04, 0.02], "c": [0.2, -0.15, 0.1, 0.05, -0.2, 0.15, -0.1, 0.25, -0.05, 0.1, -0.15, 0.2, 0.05]},
-    }[kind]
+    }["t1" if kind == "t3" else kind]
     out = {}
     for c in COLS:
-        x = 8.0 if kind == "t1" else 10.0
+        x = 8.0 if kind in ("t1", "t3") else 10.0
         path = [x]
         for r in rets[c]:
             x = x * (1.0 + r)
             path.append(x)
         out[c] = path
     idx = pd.bdate_range("2020-01-06", periods=N)
-    return pd.DataFrame(out, index=idx, dtype=float)
+    df = pd.DataFrame(out, index=idx, dtype=float)
+    if kind == "t3":
+        # a late listing and a one-day gap: statistics are taken on the rows all selected names share
+        df.iloc[:4, 2] = float("nan")
+        df.iloc[7, 1] = float("nan")
+    return df
 
 
 def target(data, now_i, extra=None, children=None, capital=1024.0):
@@ -56,7 +61,8 @@ def window(data, now_i, lookback, lag, cols):
 
 
 def returns(p):
-    return p[1:] / p[:-1] - 1.0
+    r = p[1:] / p[:-1] - 1.0
+    return r[~np.isnan(r).any(axis=1)]  # the common sample
 
 
 def near(a, b, tol=1e-9):
@@ -164,6 +170,8 @@ def one(it):
             if p.shape[0] < len(sel) + 3:
                 return None  # degenerate window: outside what the formulas define
             r = returns(p)
+            if r.shape[0] < len(sel) + 2:
+                return None
             if np.any(r.std(axis=0, ddof=1) == 0):
                 return None
         if kind == "invvol":
@@ -210,7 +218,7 @@ def one(it):
                 w = np.array([got[c] for c in sel])
                 rc = w * cov.dot(w)
                 share = rc / rc.sum()
-                if np.max(np.abs(share - 1.0 / len(sel))) > 1e-3:
+                if not (np.max(np.abs(share - 1.0 / len(sel))) <= 1e-3):
                     out.append(("erc_risk_contributions", {"equal_share": 1.0 / len(sel)}, {"weights": got, "shares": [float(x) for x in share]}))
             else:
                 if any(v > 1.0 + 1e-9 for v in got.values()):
@@ -305,7 +313,7 @@ def one(it):
         if not near(vol, tv, 1e-9):
             out.append(("targetvol", {"ex_ante_vol": tv}, {"weights": got, "ex_ante_vol": vol}))
         w0 = np.array([w[c] for c in cols])
-        if np.any(np.abs(wv / w0 - wv[0] / w0[0]) > 1e-9):
+        if not np.all(np.abs(wv / w0 - wv[0] / w0[0]) <= 1e-9):
             out.append(("targetvol_not_proportional", w, got))
     elif kind == "pte":
         held, tw, now_i, lb, lag, capfac = it[1], it[2], it[3], it[4], it[5], it[6]
@@ -353,7 +361,7 @@ def cases(tier, seed):
     nows = [9, 11, 13] if tier == "quick" else [8, 9, 10, 11, 12, 13]
     lbs = [8, 10, 14, 30] if tier == "quick" else [7, 8, 9, 10, 12, 14, 21, 30]
     lags = [0, 1, 3] if tier == "quick" else [0, 1, 2, 3, 4]
-    tables = ["t1", "t2"]
+    tables = ["t1", "t2", "t3"]
     for tname in tables:
         for sel in sels:
             for now_i in nows:
@@ -385,7 +393,7 @@ def cases(tier, seed):
         for tw in tws:
             for lim in (0.0, 0.125, 0.25, 0.5, 2.0, {"a": 0.125}, {"a": 0.25, "c": 0.125}):
                 out.append(("limitdeltas", held, tw, lim))
-    for tname in tables:
+    for tname in tables[:2]:  # (TargetVol takes pandas' pairwise covariance: tables without gaps)
         for w in ({"a": 1.0}, {"a": 0.5, "b": 0.5}, {"a": 0.25, "b": 0.25, "c": 0.5}, {"a": 0.75, "b": -0.25}, {"c": 0.5, "a": 0.25, "b": 0.25}, {"c": 0.75, "a": 0.25}, {"b": 0.125, "a": 0.875}):
             for now_i in nows:
                 for lb in lbs:
